@@ -607,9 +607,199 @@ fn keyid_case<B: Backend>(cx: &mut Ctx, rng: &mut Prng, pairs: &[keys::Pair]) {
     }
 }
 
-pub fn run(rec: &mut Recorder, cases_path: &str, thorough: bool, seed: u64, kinds: &[String]) -> u64 {
+// ------------------------------------------------------------------------------------------- official vectors
+/// L1 itself against the official test vectors (no backend involved): every positive vector must equal the evaluated
+/// term under BOTH primitive families, so that a later disagreement between code and L1 is attributable.
+fn vectors(rec: &mut Recorder, cases: &[Value], dir: &str, kinds: &[String], thorough: bool) -> u64 {
+    let hexv = |v: &Value| hex::decode(v.as_str().unwrap_or("")).unwrap_or_default();
+    let der = |b: Vec<u8>| if b.first() == Some(&0x2d) { crate::obs_keys::pem_body(&b).unwrap_or(b) } else { b };
+    let find = |pred: &dyn Fn(&Value) -> bool| cases.iter().find(|c| pred(c));
+    let mut n = 0u64;
+    let mut emit = |rec: &mut Recorder, kind: &str, ver: u64, name: &str, fam: Fam, holds: bool, extra: Value| {
+        let mut o = json!({"fn":"term","kind":kind,"ver":ver,"be":format!("L1/{fam:?}"),"dir":"vector","rel":"equal","holds":holds,"vector":name});
+        if let Some(m) = extra.as_object() {
+            for (k, v) in m {
+                o[k] = v.clone();
+            }
+        }
+        rec.emit(o);
+        n += 1;
+    };
+    let read = |f: &str| -> Vec<Value> {
+        std::fs::read_to_string(format!("{dir}/{f}")).ok().and_then(|s| serde_json::from_str::<Value>(&s).ok()).map(|v| v["tests"].as_array().cloned().unwrap_or_default()).unwrap_or_default()
+    };
+    for ver in 1..=4u64 {
+        // ---- tokens
+        if kinds.iter().any(|k| k == "local" || k == "public") {
+            for t in read(&format!("v{ver}.json")) {
+                if t["expect-fail"].as_bool().unwrap_or(true) {
+                    continue;
+                }
+                let name = t["name"].as_str().unwrap_or("");
+                let token = t["token"].as_str().unwrap_or("");
+                let m = t["payload"].as_str().unwrap_or("").as_bytes().to_vec();
+                let f = t["footer"].as_str().unwrap_or("").as_bytes().to_vec();
+                let i = t["implicit-assertion"].as_str().unwrap_or("").as_bytes().to_vec();
+                let local = !t["nonce"].is_null();
+                let hdr = format!("v{ver}.{}.", if local { "local" } else { "public" });
+                let Some((payload, _)) = crate::drive_tokens::split_token(token, hdr.len()) else { continue };
+                let kind = if local { "local" } else { "public" };
+                let Some(case) = find(&|c| c["kind"] == kind && c["ver"] == ver && c["mlen"] == m.len() && c["flen"] == f.len() && c["ilen"] == i.len()) else {
+                    emit(rec, kind, ver, name, Fam::Rc, false, json!({"missing_case": [m.len(), f.len(), i.len()]}));
+                    continue;
+                };
+                for fam in [Fam::Rc, Fam::Native] {
+                    let mut inp: Inputs = HashMap::new();
+                    inp.insert("m".into(), m.clone());
+                    inp.insert("f".into(), f.clone());
+                    inp.insert("i".into(), i.clone());
+                    if local {
+                        inp.insert("key".into(), hexv(&t["key"]));
+                        inp.insert("rnd".into(), hexv(&t["nonce"]));
+                        let w = ev(fam, &case["payload"], &inp);
+                        emit(rec, kind, ver, name, fam, w.as_ref().map(|w| *w == payload).unwrap_or(false), json!({}));
+                    } else {
+                        let pk = der(hexv(&t["public-key"]));
+                        let sk = der(hexv(&t["secret-key"]));
+                        inp.insert("pk".into(), pk.clone());
+                        let sl = case["sig_len"].as_u64().unwrap() as usize;
+                        if payload.len() != m.len() + sl {
+                            emit(rec, kind, ver, name, fam, false, json!({"payload_len": payload.len()}));
+                            continue;
+                        }
+                        let sig = &payload[m.len()..];
+                        let ok = match ev(fam, &case["tbs"], &inp) {
+                            Ok(tbs) => {
+                                payload[..m.len()] == m[..]
+                                    && sig_verify(fam, ver as u32, &pk, &tbs, sig)
+                                    && (ver == 1 || ver == 3 || sig_sign(fam, ver as u32, &sk, &tbs) == sig)
+                            }
+                            Err(_) => false,
+                        };
+                        emit(rec, kind, ver, name, fam, ok, json!({}));
+                    }
+                }
+            }
+        }
+        // ---- PIE and PBKW
+        for (kt, kind, file) in [("local", "pie", "local-wrap.pie"), ("secret", "pie", "secret-wrap.pie"), ("local", "pw", "local-pw"), ("secret", "pw", "secret-pw")] {
+            if !kinds.iter().any(|k| k == kind) {
+                continue;
+            }
+            for t in read(&format!("k{ver}.{file}.json")) {
+                if t["expect-fail"].as_bool().unwrap_or(true) || t["paserk"].is_null() {
+                    continue;
+                }
+                let name = t["name"].as_str().unwrap_or("");
+                let hdr = format!("k{ver}.{file}.");
+                let Some(blob) = t["paserk"].as_str().and_then(|s| s.strip_prefix(&hdr)).and_then(crate::b64::dec) else { continue };
+                let ptk = der(hexv(&t["unwrapped"]));
+                // the cost parameters are read from the blob itself (the parameter block is part of the format)
+                let cost: Option<Vec<u64>> = if kind == "pw" {
+                    dp::pw_cost_of(ver as u32, &blob).map(|c| if ver == 1 || ver == 3 { vec![c.0, 0, 0] } else { vec![c.0 / 1024, c.1 as u64, c.2 as u64] })
+                } else {
+                    None
+                };
+                // k1 secret keys are wrapped as PEM text in some vectors while `unwrapped` gives DER: those cannot be rebuilt from the file
+                let overhead = if kind == "pie" { if ver == 1 || ver == 3 { 80 } else { 64 } } else if ver == 1 || ver == 3 { 100 } else { 88 };
+                if blob.len() != ptk.len() + overhead {
+                    continue;
+                }
+                // the 256 MiB Argon2id vectors cost seconds each: thorough tier only
+                if !thorough && cost.as_ref().map(|c| ver % 2 == 0 && c[0] > 65536).unwrap_or(false) {
+                    continue;
+                }
+                let Some(case) = find(&|c| {
+                    c["kind"] == kind && c["ver"] == ver && c["ktype"] == kt && c["klen"] == ptk.len()
+                        && cost.as_ref().map(|cv| c["cost"].as_array().map(|a| a.iter().map(|x| x.as_u64().unwrap_or(0)).collect::<Vec<_>>() == *cv).unwrap_or(false)).unwrap_or(true)
+                }) else {
+                    emit(rec, kind, ver, name, Fam::Rc, false, json!({"missing_case": [ptk.len()], "cost": cost}));
+                    continue;
+                };
+                for fam in [Fam::Rc, Fam::Native] {
+                    let mut inp: Inputs = HashMap::new();
+                    inp.insert("ptk".into(), ptk.clone());
+                    if kind == "pie" {
+                        inp.insert("wk".into(), hexv(&t["wrapping-key"]));
+                        let at = case["nonce_at"].as_u64().unwrap() as usize;
+                        inp.insert("n".into(), blob.get(at..at + 32).unwrap_or(&[]).to_vec());
+                    } else {
+                        inp.insert("pw".into(), t["password"].as_str().unwrap_or("").as_bytes().to_vec()); // the vector files give the password as text
+                        let (sl, pl, nl) = (case["salt_len"].as_u64().unwrap() as usize, case["param_len"].as_u64().unwrap() as usize, case["nonce_len"].as_u64().unwrap() as usize);
+                        inp.insert("s".into(), blob.get(..sl).unwrap_or(&[]).to_vec());
+                        inp.insert("n".into(), blob.get(sl + pl..sl + pl + nl).unwrap_or(&[]).to_vec());
+                    }
+                    let w = ev(fam, &case["data"], &inp);
+                    let at = w.as_ref().ok().map(|w| w.iter().zip(blob.iter()).position(|(a, b)| a != b).map(|x| x as i64).unwrap_or(-1));
+                    emit(rec, kind, ver, name, fam, w.as_ref().map(|w| *w == blob).unwrap_or(false),
+                        json!({"first_difference_at": at, "spec_len": w.as_ref().map(|w| w.len()).unwrap_or(0), "vector_len": blob.len(), "evaluator_error": w.as_ref().err().cloned().unwrap_or_default()}));
+                }
+            }
+        }
+        // ---- key sealing
+        if kinds.iter().any(|k| k == "pke") {
+            for t in read(&format!("k{ver}.seal.json")) {
+                if t["expect-fail"].as_bool().unwrap_or(true) || t["paserk"].is_null() {
+                    continue;
+                }
+                let name = t["name"].as_str().unwrap_or("");
+                let hdr = format!("k{ver}.seal.");
+                let Some(blob) = t["paserk"].as_str().and_then(|s| s.strip_prefix(&hdr)).and_then(crate::b64::dec) else { continue };
+                let Some(case) = find(&|c| c["kind"] == "pke" && c["ver"] == ver && c["dir"] == "recv") else { continue };
+                let raw = |v: &Value| {
+                    // hex of raw bytes, or a PEM text (v1)
+                    let s = v.as_str().unwrap_or("");
+                    if s.starts_with("-----") { s.as_bytes().to_vec() } else { hex::decode(s).unwrap_or_default() }
+                };
+                let sk = der(raw(&t["sealing-secret-key"]));
+                let pk = der(raw(&t["sealing-public-key"]));
+                for fam in [Fam::Rc, Fam::Native] {
+                    let mut inp: Inputs = HashMap::new();
+                    inp.insert("pdk".into(), hexv(&t["unsealed"]));
+                    inp.insert("pk".into(), pk.clone());
+                    inp.insert("pk_der".into(), pk.clone());
+                    inp.insert("sk".into(), sk.clone());
+                    inp.insert("sk_der".into(), sk.clone());
+                    inp.insert("sk_seed".into(), sk.get(..32).unwrap_or(&[]).to_vec());
+                    match ver {
+                        1 => inp.insert("c".into(), blob.get(80..).unwrap_or(&[]).to_vec()),
+                        3 => inp.insert("epk".into(), blob.get(48..97).unwrap_or(&[]).to_vec()),
+                        _ => inp.insert("epk".into(), blob.get(32..64).unwrap_or(&[]).to_vec()),
+                    };
+                    let w = ev(fam, &case["data"], &inp);
+                    emit(rec, "pke", ver, name, fam, w.as_ref().map(|w| *w == blob).unwrap_or(false), json!({}));
+                }
+            }
+        }
+        // ---- key ids (fixed-width key kinds; v1 keys are given as PEM in the vectors and are canonicalised by the library)
+        if kinds.iter().any(|k| k == "keyid") && ver != 1 {
+            for (kind, file) in [("local", "lid"), ("public", "pid"), ("secret", "sid")] {
+                for t in read(&format!("k{ver}.{file}.json")) {
+                    if t["expect-fail"].as_bool().unwrap_or(true) || t["paserk"].is_null() {
+                        continue;
+                    }
+                    let name = t["name"].as_str().unwrap_or("");
+                    let kb = hexv(&t["key"]);
+                    let Some(case) = find(&|c| c["kind"] == "keyid" && c["ver"] == ver && c["ktype"] == kind && c["klen"] == kb.len()) else { continue };
+                    for fam in [Fam::Rc, Fam::Native] {
+                        let mut inp: Inputs = HashMap::new();
+                        inp.insert("keybytes".into(), kb.clone());
+                        let w = ev(fam, &case["id_text"], &inp);
+                        emit(rec, "keyid", ver, name, fam, w.as_ref().map(|w| w.as_slice() == t["paserk"].as_str().unwrap_or("").as_bytes()).unwrap_or(false), json!({}));
+                    }
+                }
+            }
+        }
+    }
+    n
+}
+
+pub fn run(rec: &mut Recorder, cases_path: &str, thorough: bool, seed: u64, kinds: &[String], vector_dir: Option<&str>) -> u64 {
     let cases: Vec<Value> = serde_json::from_str(&std::fs::read_to_string(cases_path).expect("cases file")).expect("cases json");
     let mut total = 0;
+    if let Some(d) = vector_dir {
+        total += vectors(rec, &cases, d, kinds, thorough);
+    }
     fn for_backend<B: Backend>(rec: &mut Recorder, cases: &[Value], thorough: bool, seed: u64, kinds: &[String]) -> u64 {
         let mut rng = Prng::new(seed, &format!("terms-{}", B::NAME));
         let pairs = keys::signing_pairs::<B>(&mut rng, 2);
@@ -635,7 +825,14 @@ pub fn run(rec: &mut Recorder, cases_path: &str, thorough: bool, seed: u64, kind
                         public_case::<B>(&mut cx, &mut rng, &pairs)
                     }
                 }
-                "pie" | "pw" => wrap_case::<B>(&mut cx, &mut rng, &pairs),
+                "pie" | "pw" => {
+                    // the cost parameters of the official vectors (64 / 256 MiB, 10000 iterations) are evaluated once by the
+                    // vector pass; the per-backend campaign uses the cheap ones
+                    let cheap = case["cost"].as_array().map(|c| c[0].as_u64().unwrap_or(0) <= 1000).unwrap_or(true);
+                    if cheap {
+                        wrap_case::<B>(&mut cx, &mut rng, &pairs)
+                    }
+                }
                 "pke" => pke_case::<B>(&mut cx, &mut rng, &recipients),
                 "keyid" => keyid_case::<B>(&mut cx, &mut rng, &pairs),
                 _ => {}
